@@ -53,7 +53,8 @@ COMPONENTS = {
 RULES = {
     'C04': 'each run = 1-3 cases (write reference -> optional storage fault '
            'on reference or actual file -> assertion through one of the three '
-           'text entry points with a random option subset), verdict compared '
+           'text entry points with a random option subset; file pairs may carry '
+           'equal or skewed simulated modification times), verdict compared '
            'with the M-text model; non-trivial = a storage fault fired or an '
            'exclusion option was in force or the texts differ; distinct = '
            'distinct (entry point, option set, fault kind, mutation kinds, '
@@ -68,7 +69,8 @@ RULES = {
            '= distinct (op-kind/client sequence, fault kinds, verdicts) shapes',
     'C15': 'each run = 1-4 failing or passing text/binary assertions (string '
            'and file entry points, option subsets, configured or default '
-           'temp dir, artefacts of earlier ops left in place) with a complete '
+           'temp dir, configured dir created before or only after the test '
+           'objects, artefacts of earlier ops left in place) with a complete '
            'before/after audit of the world; non-trivial = assertion failed '
            'with exclusions in force, or stale artefacts were present, or the '
            'temp dir was the unconfigured default; distinct = distinct (entry '
